@@ -2,7 +2,7 @@
    and the in-Coq cross-check (cases.v, vm_compute) both call. *)
 From Coq Require Import List NArith ZArith Bool.
 Import ListNotations.
-From RV Require Import Base.Str Base.PathLex Path.Clean Path.CleanSpec Path.Relative Path.Helpers Path.HelpersFacts Core.Iter File.MemFile Path.Expand Path.Abs.
+From RV Require Import Base.Str Base.PathLex Path.Clean Path.CleanSpec Path.Relative Path.Helpers Path.HelpersFacts Core.Iter File.MemFile Path.Expand Path.Abs Xdg.Dirs.
 
 Definition api_components := components.
 Definition api_push := push.
@@ -96,3 +96,22 @@ Fixpoint env_lookup (e : list (list N * list N)) (k : list N) : option (list N) 
   end.
 Definition api_expand (e : list (list N * list N)) (p : list N) := expand (env_lookup e) p.
 Definition api_abs (e : list (list N * list N)) (cwd p : list N) := Abs.abs cwd (env_lookup e) p.
+
+(* ---- C18 ---- *)
+Definition api_xdg_home (which : N) (e : list (list N * list N)) : res (list N) :=
+  let env := env_lookup e in
+  match which with
+  | 0 => config_dir env | 1 => cache_dir env | 2 => data_dir env | 3 => state_dir env
+  | _ => Ok (runtime_dir env)
+  end%N.
+Definition api_xdg_dirs (which : N) (e : list (list N * list N)) : res (list (list N)) :=
+  let env := env_lookup e in
+  match which with
+  | 0 => Ok (sys_config_dirs env) | 1 => Ok (sys_data_dirs env) | _ => path_dirs env
+  end%N.
+Definition api_getrids (e : list (list N * list N)) (uid gid : N) := getrids (env_lookup e) uid gid.
+Definition mem_str (x : list N) (l : list (list N)) : bool := existsb (str_eqb x) l.
+(* exists() of a filesystem whose only files are `files` (absolute clean paths), cwd "/" *)
+Definition api_vfs_config_dir (e : list (list N * list N)) (name : list N) (files : list (list N)) : option (list N) :=
+  let env := env_lookup e in
+  vfs_config_dir env (fun p => match Abs.abs [slash] env p with inl a => mem_str a files | inr _ => false end) name.
